@@ -62,6 +62,14 @@ def run(ctx):
         classes.append("script")
     norm = lambda o: gsgen.project(o, KEEP)
     diff(ctx, lines, "group script (group law)", classes, norm=norm)
+    # the mixed extended addition used by the precomputed tables, on equal / opposite / identity operands
+    pts = gsgen.pool_points(rng, 8)
+    tl = []
+    for P in pts[:2] + [rng.choice(pts[2:]) for _ in range(ctx.n(6, 60))]:
+        sc = rng.choice([1, 2, 3, 7, 128, 255, 256, 2 ** 64 + 1, gsgen.scalars(rng)])
+        tl.append("gs raw:%s raw:%s pcsm:0,0:%x,%x pcsm:0,1:%x,%x pcsm:0,0:%x,%x pcsm:0,1,0:1,1,1 pcsm:0:0 smul:0:%x"
+                  % (gsgen.rep_tok(rng, P), gsgen.rep_tok(rng, P), sc, sc, sc, sc, sc, (E.R - sc) % E.R, (2 * sc) % E.R))
+    diff(ctx, tl, "table-driven accumulation (mixed extended addition)", ["tables"] * len(tl), norm=norm)
     laws = law_scripts(rng, ctx.n(150, 10000))
     impl, _ = diff(ctx, laws, "group law instances", ["laws"] * len(laws), norm=norm)
     check_laws(ctx, laws, impl)
